@@ -285,9 +285,13 @@ class PostgresQueue(Queue):
         pool = self._get_pool()
         with pool.connection() as conn:
             with conn.cursor() as cur:
+                # (id, attempts) identifies the claim (see the SQLite twin)
                 cur.execute(
-                    f"UPDATE {self.table_name} SET locked_until = %(locked_until)s WHERE id = %(id)s",
-                    {"locked_until": locked_until, "id": msg_id},
+                    f"""
+                    UPDATE {self.table_name} SET locked_until = %(locked_until)s
+                    WHERE id = %(id)s AND (%(attempts)s = 0 OR attempts = %(attempts)s)
+                    """,
+                    {"locked_until": locked_until, "id": msg_id, "attempts": message.attempts or 0},
                 )
                 extended = bool(cur.rowcount == 1)
             conn.commit()
@@ -323,9 +327,9 @@ class PostgresQueue(Queue):
                     UPDATE {self.table_name}
                     SET deliver_at = %(deliver_at)s,
                         locked_until = NULL
-                    WHERE id = %(id)s
+                    WHERE id = %(id)s AND (%(attempts)s = 0 OR attempts = %(attempts)s)
                     """,
-                    {"id": msg_id, "deliver_at": deliver_at},
+                    {"id": msg_id, "deliver_at": deliver_at, "attempts": message.attempts or 0},
                 )
             conn.commit()
 
